@@ -90,6 +90,9 @@ def abs_value(x, table=TABLE, depth=0):
     t = type(x)
     if t is str:
         return T("str", x)
+    if isinstance(t, type) and issubclass(t, str) and t.__hash__ is str.__hash__:
+        # an instance of a str subclass: its text plus its exact class (a = <<atom(class)>>)
+        return T("str", str.__str__(x), [T("atom", table.name(t))])
     if isinstance(t, type) and issubclass(t, type):  # x is a class object
         return T("classobj", table.name(x))
     if t in _FUNC_TYPES:
@@ -214,7 +217,7 @@ def _a_generator():
 def real_value(v, table=TABLE):
     k = v["k"]
     if k == "str":
-        return v["n"]
+        return resolve_class(v["a"][0]["n"], table)(v["n"]) if v["a"] else v["n"]
     if k == "atom":
         if v["n"] in _ATOM_SAMPLES:
             return _ATOM_SAMPLES[v["n"]]
